@@ -181,4 +181,16 @@ TEXTS.update({
         "technique": "Lean 4 proof (invariant of the actor transition system: sequential replay + real-time order) + linearizability checking of real histories, race detector",
     },
 })
+TEXTS.update({
+    "C12": {
+        "text": "Lean theorems on the lifecycle cascade from EVERY state: the library's own steps can always be completed to a terminal state within pending(s) <= 2 x components "
+                "steps, every run of them is that short, after a root Close the terminal state has every component done, ShutdownInitiated/Completed are enabled at most once "
+                "per component, and a subscription attached while racing with shutdown is a child of its publisher (so it is shut down with it). Goroutine exit, API calls "
+                "returning instead of blocking and (virtual) time bounds are exhibited on the real code: shutdown-point enumeration with racing API calls under synctest.",
+        "design_ref": "DESIGN.md §7 C12",
+        "note": "Partial: the theorems are about the cascade model (Life.lean); that every real goroutine reaches its select again (responsiveness) and exits is exhibited by "
+                "testing/synctest's end-of-bubble check on sampled schedules, not proved.",
+        "technique": "Lean 4 proof (termination variant + terminal-state completeness from every state) + shutdown-point enumeration on the real code under testing/synctest",
+    },
+})
 NOT_BUILT = {}
